@@ -436,6 +436,11 @@ impl TextWriter {
             // we've just added a newline, make sure it's properly indented
             self.write_indent();
         }
+        if self.buffer.ends_with('\r') && item.starts_with('\n') {
+            // same edge case as in `newline`: keep a trailing `\r` of the text
+            // from being read back as part of a CRLF line ending
+            self.buffer.push('\r');
+        }
 
         write!(self.buffer, "{}", item).expect("Writing to an in-memory buffer never fails");
     }
